@@ -511,19 +511,22 @@ func newValueFromVertex(v graph.Vertex) *Value {
 // Arg returns an Arg that can be used with Func.Call to send this value.
 // This only works if the Value's Value field is set.
 func (v *Value) Arg() Arg {
-	// A value of an interface type is sent under that type, not under the
-	// dynamic type of what it holds.
-	if v.Value.IsValid() && v.Value.Kind() == reflect.Interface {
-		return valueArg(v.Name, v.Value, v.Subtype)
-	}
-
-	// The same goes for a value that is declared with an interface type and
-	// holds a bare concrete value (v.Value = reflect.ValueOf(impl)).
+	// A value that is declared with an interface type is sent under that
+	// type, whatever it holds: a bare concrete value (v.Value =
+	// reflect.ValueOf(impl)) or a value of another interface type that is
+	// assignable to the declared one (say, taken from the result set of
+	// another function).
 	if v.Value.IsValid() && v.Type != nil && v.Type.Kind() == reflect.Interface &&
 		v.Value.Type().AssignableTo(v.Type) {
 		rv := reflect.New(v.Type).Elem()
 		rv.Set(v.Value)
 		return valueArg(v.Name, rv, v.Subtype)
+	}
+
+	// Otherwise a value of an interface type is sent under that type, not
+	// under the dynamic type of what it holds.
+	if v.Value.IsValid() && v.Value.Kind() == reflect.Interface {
+		return valueArg(v.Name, v.Value, v.Subtype)
 	}
 
 	switch v.Kind() {
